@@ -61,7 +61,7 @@ META = dict(
     "outcomes = distinct databases observed after flushes",
     assumptions=["SQLite 3.40 with foreign_keys=ON", "single session, single thread", "expire_on_commit=True", "explicit primary keys"],
     bounds=dict(
-        quick="18 configurations; autoflush on: 3-4 roots, autoflush off: the populated root; every history of <= 2 operations beyond the root, each followed by flush and by commit (+ merge alphabet on 6 configurations)",
+        quick="18 configurations; autoflush on: 2-4 roots (the empty root once per world), autoflush off: the populated root for 9 configurations; every history of <= 2 operations beyond the root, each followed by flush and by commit (+ merge alphabet on 6 configurations)",
         thorough="18 configurations x {autoflush on, off} x 3-5 roots, every history of <= 2 operations beyond the root; <= 3 operations after the populated "
         "root (autoflush on: 9 configurations, off: 3; not the self-referential world); each history followed by flush and by commit",
     ),
@@ -122,6 +122,8 @@ def world_keys(tier):
 # dependent defects f1 f3 f4 f6 f11 -- e.g. a node re-parented through an expired many-to-one whose former parent is deleted
 # or orphaned in the same flush -- whose combined outcome the model does not enumerate)
 DEEP_ON = (("U1", SU), ("U1", ORPH), ("U7", ORPH), ("U2", ALL), ("U4", ORPH), ("U5", True, SU), ("U5", False, SU), ("U8", ALL), ("U1", ALL, True, True))
+QUICK_OFF = (("U1", SU), ("U1", ORPH), ("U7", SU), ("U3", SU), ("U2", ALL), ("U4", ORPH), ("U5", True, SU), ("U5", False, SU), ("U8", ALL))
+QUICK_EMPTY = (("U1", ORPH), ("U7", ORPH), ("U3", ORPH), ("U2", ALL), ("U4", ORPH), ("U5", True, SU), ("U8", ALL), ("U1", ALL, True, True), ("U1", ORPH, False))
 DEEP_OFF = (("U1", ORPH), ("U7", SU), ("U2", ALL))
 MERGE_KINDS = ("merge", "add", "delete", "rel", "flush", "commit")
 
@@ -131,8 +133,10 @@ def configs(tier):
     for wk in world_keys(tier):
         for af in (True, False):
             for ri in range(len(ROOTS[wk[0]])):
-                if tier == "quick" and not af and ri != 1:
-                    continue  # quick: autoflush-off replicas only from the populated root
+                if tier == "quick" and not af and (ri != 1 or wk not in QUICK_OFF):
+                    continue  # quick: autoflush-off replicas only from the populated root, for 9 configurations
+                if tier == "quick" and ri == 0 and wk not in QUICK_EMPTY:
+                    continue  # quick: the empty root once per world
                 deep = tier != "quick" and ri == 1 and ((af and wk in DEEP_ON) or (not af and wk in DEEP_OFF))
                 out.append(dict(world=wk, autoflush=af, root=ri, depth=3 if deep else 2, kinds=None))
     for wk in [("U1", SU), ("U1", ORPH), ("U2", ALL), ("U3", ALL), ("U7", ORPH), ("U4", SU)]:
